@@ -679,6 +679,10 @@ def _fork_over(container_items, k, on_hit, on_miss):
             if not isinstance(item, str):
                 continue
             cond = k.t == z3.StringVal(item)
+        elif isinstance(k, sym.SymCase):
+            if not isinstance(item, str):
+                continue
+            cond = k._matches(item)
         elif isinstance(k, SymInt):
             if not isinstance(item, int) or isinstance(item, bool):
                 continue
